@@ -520,7 +520,7 @@ func (c *DefaultCtx) Format(handlers ...ResFmt) error {
 	c.Vary(HeaderAccept)
 
 	if c.Get(HeaderAccept) == "" {
-		c.Response().Header.SetContentType(handlers[0].MediaType)
+		c.Response().Header.SetContentType(removeNewLines(handlers[0].MediaType))
 		return handlers[0].Handler(c)
 	}
 
@@ -548,7 +548,7 @@ func (c *DefaultCtx) Format(handlers ...ResFmt) error {
 
 	for _, h := range handlers {
 		if h.MediaType == accept {
-			c.Response().Header.SetContentType(h.MediaType)
+			c.Response().Header.SetContentType(removeNewLines(h.MediaType))
 			return h.Handler(c)
 		}
 	}
